@@ -525,6 +525,10 @@ def _table(ctx, tag, fn, ret, n):
         if cr is not None:
             ctx.fail(f"{tag}: the table can be evaluated", fn, {"evaluation raises": cr.why})
             return None
+        um = _unmodelled([v for v in ret if isinstance(v, (F.Rat, tuple))])
+        if um:
+            ctx.error(f"{tag}: table", fn, f"the table contains values the evaluator did not follow: {um}"[:300])
+            return None
         return ret
     ctx.error(f"{tag}: return", fn, f"expected {n} values, got {ret!r}"[:300])
     return None
@@ -685,7 +689,13 @@ class Run:
         if self.pq is not None and len(self.pq.pos) >= 2:
             U, V = to_rat(self.pq.pos[0]), to_rat(self.pq.pos[1])
             if not is_unknown(U) and not is_unknown(V):
-                self.order = _degree(V - U)
+                um = _unmodelled([U, V])
+                if um:
+                    # (a table built from values the evaluator did not follow has no degree: the route counts as not evaluated)
+                    if not _find_crash(self.ret) and not isinstance(self.ret, Raised):
+                        self.ret = I.Unknown(f"the Pade table of the route contains values the evaluator did not follow: {um}")
+                else:
+                    self.order = _degree(V - U)
 
     def leaves(self):
         """the linear solves of the integrals, in order: the first is the integral's own (solve(Q, P) of the route's table), any further
@@ -696,7 +706,8 @@ class Run:
         """(P, Q) of the Pade table the second integral was solved from, as functions of x = A (the helper works on A h: x -> x / h),
         or None when no such solve was reached"""
         lv = self.leaves()
-        if len(lv) < 2 or is_unknown(to_rat(lv[-1].pos[0])) or is_unknown(to_rat(lv[-1].pos[1])):
+        if len(lv) < 2 or is_unknown(to_rat(lv[-1].pos[0])) or is_unknown(to_rat(lv[-1].pos[1])) \
+                or _unmodelled([to_rat(lv[-1].pos[0]), to_rat(lv[-1].pos[1])]):
             return None
         sub = {"x": self.x / self.h}
         return to_rat(lv[-1].pos[1]).subs(sub), to_rat(lv[-1].pos[0]).subs(sub), lv[-1]
@@ -896,8 +907,11 @@ def r2_thresholds(ctx):
                   f"the switch variable is not written with a norm function: {[repr(s_[1]) for s_ in seen][:3]}"[:300])
     good = True
     detail = {}
+    undecided = None
     for regime, want in (("below", "getEPQ1"), ("above", "getEPQ2")):
         ret, c, it = res[regime]
+        if _has_unknown(ret) and not _find_crash(ret):
+            undecided = f"getEPQ could not be evaluated {regime} the switch: {ret!r}"[:300]
         if c is None or c.name != want or not I.same_value(ret, F.sym(want + "()")):
             good = False
             detail[regime] = repr(c)[:200]
@@ -907,7 +921,10 @@ def r2_thresholds(ctx):
             if i_ >= len(got) or not I.same_value(got[i_], v):
                 good = False
                 detail[f"{want} argument {i_ + 1} ({nm})"] = repr(got[i_] if i_ < len(got) else None)[:100]
-    ctx.check(good, "getEPQ: getEPQ1 below the switch, getEPQ2 above it, both receive (A, h, order, B, half) unchanged", fn, detail or None)
+    if not good and undecided is not None:
+        ctx.error("getEPQ: getEPQ1 below the switch, getEPQ2 above it, both receive (A, h, order, B, half) unchanged", fn, undecided)
+    else:
+        ctx.check(good, "getEPQ: getEPQ1 below the switch, getEPQ2 above it, both receive (A, h, order, B, half) unchanged", fn, detail or None)
     # the route the switch guards: just below the switch constant expmint must still be on a route for which _geti2 has a Pade table
     if len(consts) == 1:
         cst = next(iter(consts))
@@ -1512,7 +1529,7 @@ def r5_ssmodel(ctx):
         verdict(ctx, ok, f"c2d[{tag}]: {what}", cfn, {"got": repr(Hz)[:400], "want": repr(want)[:400]}, [zA, zB, zC, zD])
         zh = zm.attrs.get("h")
         ok = isinstance(zh, F.Rat) and zh.equals(h)
-        ctx.check(ok, f"c2d[{tag}]: the discrete model is constructed with the step h it was computed for", cfn, None if ok else repr(zh))
+        verdict(ctx, ok, f"c2d[{tag}]: the discrete model is constructed with the step h it was computed for", cfn, repr(zh), [zh])
         # round trip
         try:
             it = Interp(ctx, SSM, hook=scalar_hook(_ss_hook), oracle=_ss_oracle(w, h))
@@ -1536,8 +1553,8 @@ def r5_ssmodel(ctx):
             ok = rec["method"] is None or rec["method"] == method
             if method == "tustin" and not pw0 and ok:
                 ok = rec["prewarp"] is None or I.same_value(to_rat(rec["prewarp"]), w)
-            ctx.check(ok, f"{what_}[{tag}]: the model returned records the method" + (" and prewarp frequency" if method == "tustin" else "")
-                      + " it was made with (or none)", f_, None if ok else repr(rec)[:200])
+            verdict(ctx, ok, f"{what_}[{tag}]: the model returned records the method" + (" and prewarp frequency" if method == "tustin" else "")
+                    + " it was made with (or none)", f_, repr(rec)[:200], [v_ for v_ in rec.values() if v_ is not None])
         _r5_other_direction(ctx, it, tag, method, pw, pw0, sm, (zA, zB, zC, zD), h, w, cfn, dfn)
     # getlti() of a discrete model: the continuous model d2c() (with its defaults) makes of it
     gfn = ctx.src.func(SSM, "SSModel.getlti")
